@@ -158,7 +158,7 @@ def open_bunch_contract():
         # when the function may refuse an input is the business of the main contract (it needs W); here every refusal is allowed
         raises={'AssertionError': True},
         ensures=[('limits-unchanged', "max_bunch_bytesize == old(max_bunch_bytesize) and max_bunch_size == old(max_bunch_size)")],
-        canaries=[('open-bunch-never-full', "len(bunch) < max_bunch_size")],
+        canaries=[('no-bunch-at-all', "len(result) == 0")],  # over the result only: must stay evaluable at every return of a changed body
     )
 
 
@@ -504,6 +504,8 @@ def _submit_call_site(ctx):
     for x in calls:
         amap = _call_args(x, sub) or {}
         for formal, actual in zip(limit_params or (None, None), ('max_bunch_bytesize', 'max_bunch_size')):
+            if formal not in params:
+                continue  # reported by the obligation above
             a = amap.get(formal)
             if not (isinstance(a, ast.Name) and a.id == actual and actual in tparams and not _bindings(top, actual)):
                 problems2.append('line %d: _submit parameter %s gets %s, not submit\'s unmodified %s' % (x.lineno, formal, ast.unparse(a) if a is not None else None, actual))
